@@ -2,6 +2,7 @@
 from __future__ import annotations
 
 import ast
+import os
 from typing import List, Optional, Tuple
 
 from ..collect import Path, callee_is, run_paths
@@ -278,11 +279,35 @@ def run(p: Program, rep: Report, tier: str) -> None:
                     else:
                         node, f = col.nodes[e.tag]
                         rep.violation("R7.5", construct(call, text=f"redirect {show(url)[:80] if url else ''}"), where(call, node), f"{side} Pages: the redirect target is not the request URL with '/' appended to its path")
+    # a directory URL ending in '/' serves that directory's index page: Pages appends 'index.html' only to a sanitised path
+    # that ends in '/', and os.path.abspath() DROPS a trailing slash - so the shared sanitiser must put it back for every
+    # request path that ends in '/', not for the root alone (otherwise /dir/ is answered with a redirect to /dir//)
+    base_eap = p.cls("baize.staticfiles:BaseFiles").methods.get("ensure_absolute_path")
+    if base_eap is None:
+        raise AnalysisError("BaseFiles.ensure_absolute_path vanished")
+    pth = base_eap.params[1]
+    readd = []
+    for n in ast.walk(base_eap.node):
+        if isinstance(n, ast.If):
+            adds = [x for b in n.body for x in ast.walk(b) if isinstance(x, (ast.AugAssign, ast.Assign)) and any(isinstance(c_, ast.Constant) and c_.value in ("/", os.sep) for c_ in ast.walk(x.value))]
+            if adds:
+                readd.append(n)
+    if not readd:
+        rep.violation("R7.5", construct(base_eap, text="trailing slash never restored"), where(base_eap), "the sanitiser never restores the trailing '/' that abspath() drops: no directory URL can serve its index page")
+    for n in readd:
+        t = ast.unparse(n.test).replace('"', "'")
+        general = t in (f"{pth}.endswith('/')", f"{pth}[-1:] == '/'", f"{pth}.endswith(('/',))", f"{pth}.endswith(os.sep)") or (t.startswith(f"{pth}.endswith(") and "'/'" in t)
+        if general:
+            rep.ok("R7.5", f"the sanitiser restores the trailing '/' for every request path that ends in '/' ({t})")
+        else:
+            rep.violation("R7.5", construct(base_eap, text=f"trailing slash restored only if {t}"), where(base_eap, n),
+                          f"the sanitiser restores the trailing '/' only when `{t}`: for any other directory URL ending in '/' (e.g. /dir/) Pages does not append index.html, finds a directory and "
+                          "redirects to the same URL plus '/' (/dir//) instead of serving the directory's index page")
     # the redirect target is computed from URL(scope=...) / URL(environ=...): both branches of that constructor must hand the
     # gateway's own root path + path to the builder (shared with C18/R18.1), otherwise a mounted Pages app redirects elsewhere
     from .c18 import gateway_url_branches
     gateway_url_branches(p, rep, "R7.5")
-    rep.require_instances("R7.5", 20)
+    rep.require_instances("R7.5", 21)
 
     # ---------------------------------------------------------------- R7.6 what is served is read from the resolved file, per request
     # no function on the serving path keeps file content (or anything else) in a container that outlives the request:
